@@ -147,10 +147,12 @@ def add_defendant(citation: CaseCitation, words: Tokens) -> None:
             continue
         if isinstance(word, StopWordToken):
             if word.groups["stop_word"] == "v" and index > 0:
-                citation.metadata.plaintiff = "".join(
+                plaintiff_raw = "".join(
                     str(w) for w in words[max(index - 2, 0) : index]
-                ).strip("( ")
-                offset += len(citation.metadata.plaintiff) + 1
+                )
+                citation.metadata.plaintiff = plaintiff_raw.strip("( ")
+                # the full span starts at the first character of the plaintiff
+                offset += len(plaintiff_raw.lstrip("( "))
             else:
                 # We don't want to include stop words such as
                 # 'citing' in the span
